@@ -206,3 +206,63 @@ Proof.
   - destruct H as [-> _]. lia.
 Qed.
 End First.
+
+(* ---------- 3. avoids: no match ever consumes one of the listed characters ---------- *)
+Section Avoids.
+Variable U : uni.
+Variable bad : list Z.
+
+Definition item_avoids (it : citem) : bool :=
+  match it with
+  | CLit c => negb (memc c bad)
+  | CRange lo hi => forallb (fun b => negb ((lo <=? b)%Z && (b <=? hi)%Z)) bad
+  | CCat cat => forallb (fun b => negb (in_cat U cat b)) bad
+  end.
+
+Fixpoint avoids (r : rx) : bool :=
+  match r with
+  | REps | RAt _ | RLook _ _ _ | RFail => true
+  | RLit c => negb (memc c bad)
+  | RNotLit _ | RAny _ | RBackref _ => false
+  | RIn neg items => negb neg && forallb item_avoids items
+  | RSeq a b | RAlt a b => avoids a && avoids b
+  | RRep _ _ _ r1 | RGroup _ r1 => avoids r1
+  end.
+
+Lemma item_avoids_sound it ch : item_avoids it = true -> in_item U it ch = true -> memc ch bad = false.
+Proof.
+  destruct it as [c|lo hi|cat]; cbn; intros Ha Hi.
+  - apply Z.eqb_eq in Hi. subst. apply negb_true_iff. exact Ha.
+  - destruct (memc ch bad) eqn:E; [|reflexivity]. apply memc_In in E. rewrite forallb_forall in Ha.
+    specialize (Ha ch E). rewrite Hi in Ha. discriminate.
+  - destruct (memc ch bad) eqn:E; [|reflexivity]. apply memc_In in E. rewrite forallb_forall in Ha.
+    specialize (Ha ch E). rewrite Hi in Ha. discriminate.
+Qed.
+
+Theorem avoids_sound r : avoids r = true -> forall z c z' c', M U r z c z' c' ->
+  exists w, adv z z' w /\ Forall (fun ch => memc ch bad = false) w.
+Proof.
+  induction r as [|ch|ch|ineg items|dotall|ra IHa rb IHb|ra IHa rb IHb| |greedy lo hi r1 IH1|g r1 IH1|g|ahead neg r1 IH1|a];
+    cbn [avoids M]; intros Ha z c z' c' H; try discriminate.
+  - destruct H as [-> _]. exists []. split; [apply adv_refl|constructor].
+  - destruct H as (ch0 & Hs & Hp & _). apply Z.eqb_eq in Hp. subst ch0. exists [ch]. split; [apply zstep_adv; exact Hs|].
+    constructor; [apply negb_true_iff; exact Ha|constructor].
+  - apply andb_true_iff in Ha. destruct Ha as [Hn Hit]. apply negb_true_iff in Hn. subst ineg.
+    destruct H as (ch0 & Hs & Hp & _). unfold in_class in Hp. rewrite xorb_false_l in Hp.
+    apply existsb_exists in Hp. destruct Hp as (it & Hin & Hi). rewrite forallb_forall in Hit.
+    exists [ch0]. split; [apply zstep_adv; exact Hs|]. constructor; [|constructor].
+    exact (item_avoids_sound it ch0 (Hit it Hin) Hi).
+  - apply andb_true_iff in Ha. destruct Ha as [H1 H2]. destruct H as (z1 & c1 & Hma & Hmb).
+    destruct (IHa H1 _ _ _ _ Hma) as (w1 & A1 & F1). destruct (IHb H2 _ _ _ _ Hmb) as (w2 & A2 & F2).
+    exists (w1 ++ w2). split; [eapply adv_trans; eassumption|apply Forall_app; split; assumption].
+  - apply andb_true_iff in Ha. destruct Ha as [H1 H2]. destruct H as [H|H]; eauto.
+  - contradiction.
+  - destruct H as (n & _ & _ & Hi). induction Hi as [z c|n z c z1 c1 z2 c2 HR _ _ IH].
+    + exists []. split; [apply adv_refl|constructor].
+    + destruct (IH1 Ha _ _ _ _ HR) as (w1 & A1 & F1). destruct IH as (w2 & A2 & F2).
+      exists (w1 ++ w2). split; [eapply adv_trans; eassumption|apply Forall_app; split; assumption].
+  - destruct H as (c1 & H & _). eauto.
+  - destruct neg; destruct H as [-> _]; exists []; (split; [apply adv_refl|constructor]).
+  - destruct H as [-> _]. exists []. split; [apply adv_refl|constructor].
+Qed.
+End Avoids.
